@@ -58,11 +58,34 @@ def subspaces(tier):
                         out.append(dict(num_jobs=nj, num_machines=nm, mpo=mpo, less=less, recirc=recirc, mode="seeded",
                                         n=(2 if tier == "quick" else 3) if small else 1))
     for nj, nm in ((2, 2), ([1, 2], [1, 2]), (3, 2)):
-        if tier == "thorough" or nj == 2:
+        # iter mode generates 2*n instances: keep the product of RNG outcomes small
+        if nj == 2:
+            out.append(dict(num_jobs=nj, num_machines=nm, mpo=1, less=True, recirc=False, mode="iter", n=2 if tier == "quick" else 3))
+        elif tier == "thorough" and nj != 3:
             out.append(dict(num_jobs=nj, num_machines=nm, mpo=1, less=True, recirc=False, mode="iter", n=2))
         out.append(dict(num_jobs=nj, num_machines=nm, mpo=1, less=True, recirc=False, mode="iter", n=1))
         out.append(dict(num_jobs=nj, num_machines=nm, mpo=1, less=False, recirc=False, mode="explicit", n=1))
-    return out
+    limit = 3000 if tier == "quick" else 12000
+    return [sp for sp in out if outcomes(sp) ** (sp["n"] * (2 if sp["mode"] == "iter" else 1)) <= limit]
+
+
+def outcomes(sp):
+    """Upper estimate of the number of RNG outcomes of one generated instance (sizes at their maximum)."""
+    from math import factorial
+
+    J, M = _maxv(sp["num_jobs"]), _maxv(sp["num_machines"])
+    k = _maxv(sp["mpo"])
+    if k > 1:
+        per_op = 0
+        for kk in range(_minv(sp["mpo"]), k + 1):
+            c = 1
+            for i in range(kk):
+                c *= (M - i)
+            per_op += c
+        return per_op ** (J * M)
+    if sp["recirc"]:
+        return M ** (J * M)
+    return factorial(M) ** J
 
 
 def cost(sp):
